@@ -103,6 +103,8 @@ class Block:
         self.tail = None
         self.steps = []      # ('rule', id, args) | ('rewrite', id, rx, repl)
         self.texts = []      # (kind, arg, text, tpl_line)
+        self.contract_only = False
+        self.imported_from = None
 
 
 def parse_template(path):
@@ -111,6 +113,7 @@ def parse_template(path):
     curtext = None
     with open(path, encoding='utf-8') as f:
         lines = f.read().split('\n')
+    lines = preprocess(lines, path)
     plain = []
 
     def flush_plain():
@@ -136,6 +139,21 @@ def parse_template(path):
                 flush_plain()
                 cur = Block(arg.strip(), ln)
                 curtext = None
+            elif key in ('section', 'endsection'):
+                pass
+            elif key == 'import':
+                flush_plain()
+                u2, lab = arg.split()
+                other = parse_template(os.path.join(os.path.dirname(path), u2 + '.vrs'))
+                found = [p[1] for p in other['parts'] if p[0] == 'extract' and p[1].label == lab]
+                if len(found) != 1:
+                    raise ExtractError('template %s:%d import %s %s not found' % (path, ln, u2, lab))
+                b = found[0]
+                b.contract_only = True
+                b.imported_from = u2
+                unit['parts'].append(('extract', b, ln))
+                unit.setdefault('imports', []).append('%s.%s' % (u2, lab))
+                flush_plain.start = ln + 1
             elif key == 'end':
                 unit['parts'].append(('extract', cur, ln))
                 cur = None
@@ -188,7 +206,9 @@ def parse_template(path):
             elif key in ('loop', 'loop-body-start', 'loop-body-end'):
                 curtext = [key, int(arg), [], ln]
                 cur.texts.append(curtext)
-            elif key in ('before', 'after'):
+            elif key in ('before', 'after', 'before?', 'after?'):
+                # `?` = optional proof hint: if its anchor line is gone the hint is skipped (and logged);
+                # the verifier then decides without it
                 mm = re.fullmatch(r'/(.*)/', arg)
                 curtext = [key, mm.group(1), [], ln]
                 cur.texts.append(curtext)
@@ -201,6 +221,62 @@ def parse_template(path):
             raise ExtractError('template %s:%d text outside a text directive' % (path, ln))
     flush_plain()
     return unit
+
+
+def preprocess(lines, path):
+    """expand `//@@ include U section` (verbatim text of a section of another unit template) and
+    `//@@ import-lemma U name` (the lemma's signature as an external_body proof fn: proved in U)"""
+    out = []
+    for line in lines:
+        s = line.strip()
+        if s.startswith('//@@ include '):
+            u2, sec = s.split()[2:4]
+            with open(os.path.join(os.path.dirname(path), u2 + '.vrs'), encoding='utf-8') as f:
+                ol = f.read().split('\n')
+            take = None
+            got = []
+            for l in ol:
+                ls = l.strip()
+                if ls == '//@@ section ' + sec:
+                    take = True
+                    continue
+                if ls == '//@@ endsection' and take:
+                    take = False
+                    continue
+                if take:
+                    got.append(l)
+            if take is None:
+                raise ExtractError('template %s: include %s %s not found' % (path, u2, sec))
+            out.append('// ---- included from units/%s.vrs section %s ----' % (u2, sec))
+            out.extend(got)
+        elif s.startswith('//@@ import-lemma '):
+            u2, name = s.split()[2:4]
+            with open(os.path.join(os.path.dirname(path), u2 + '.vrs'), encoding='utf-8') as f:
+                ot = f.read()
+            om = mask(ot)
+            mm = re.search(r'(pub\s+)?proof\s+fn\s+' + re.escape(name) + r'(?![A-Za-z0-9_])', om)
+            if not mm:
+                raise ExtractError('template %s: import-lemma %s %s not found' % (path, u2, name))
+            j = mm.end()
+            depth = 0
+            while j < len(om):
+                ch = om[j]
+                if ch in '([':
+                    depth += 1
+                elif ch in ')]':
+                    depth -= 1
+                elif ch == '{' and depth == 0:
+                    break
+                j += 1
+            sig = ot[mm.start():j].rstrip()
+            out.append('// IMPORTED-LEMMA %s.%s (proved in units/%s.vrs)' % (u2, name, u2))
+            out.append('#[verifier::external_body]')
+            for l in sig.split('\n'):
+                out.append(l)
+            out.append('{ }')
+        else:
+            out.append(line)
+    return out
 
 
 LOOP_RX = re.compile(r'(?<![A-Za-z0-9_\.])(while|for|loop)(?![A-Za-z0-9_])')
@@ -245,6 +321,7 @@ class Generated:
         self.functions = []    # dict(name, label, kind, repo_file, repo_lines, sha256, gen_range, obligations[])
         self.rewrite_log = []
         self.repo_files = set()
+        self.skipped_hints = []
 
     def add(self, text, origin_fn):
         for k, l in enumerate(text.split('\n')):
@@ -348,6 +425,23 @@ def expand_block(blk, gen, unit_id):
             if mm:
                 header = header[:mm.start()] + '-> (' + blk.ret + ': ' + mm.group(1).strip() + ')'
     fname = re.search(r'fn\s+([A-Za-z0-9_]+)', header).group(1)
+    if blk.contract_only:
+        ctext = ''
+        for (k, arg, tl, ln) in blk.texts:
+            if k == 'contract':
+                ctext = '\n'.join(tl)
+        start_gen = len(gen.lines)
+        gen.add('// IMPORTED-CONTRACT %s.%s (proved in units/%s.vrs)' % (blk.imported_from, fname, blk.imported_from), lambda k: ('gen',))
+        gen.add('#[verifier::external_body]', lambda k: ('gen',))
+        gen.add(header, lambda k: ('repo', blk.file, first_line))
+        if ctext.strip():
+            gen.add(ctext, lambda k: ('gen',))
+        gen.add('{ unimplemented!() }', lambda k: ('gen',))
+        gen.functions.append(dict(name=fname, label=blk.label, kind='imported-contract', repo_file=blk.file,
+                                  repo_lines=[first_line, first_line], item=blk.item, sha256=sha,
+                                  gen_range=[start_gen + 1, len(gen.lines)], obligations=[], contracted=False,
+                                  imported_from=blk.imported_from))
+        return
     body = apply_steps(blk, body, base, logger)
     # splice texts
     bm = mask(body)
@@ -375,7 +469,9 @@ def expand_block(blk, gen, unit_id):
                 if arg >= len(loops):
                     raise ExtractError('lost anchor: loop %d not found in %s' % (arg, blk.label))
                 inserts.append((loops[arg][2], 0, '\n' + t + '\n', ln, None))
-            elif k in ('before', 'after'):
+            elif k in ('before', 'after', 'before?', 'after?'):
+                opt = k.endswith('?')
+                k = k.rstrip('?')
                 pat = re.compile(arg)
                 hits = []
                 pos = 0
@@ -384,6 +480,9 @@ def expand_block(blk, gen, unit_id):
                         hits.append(pos)
                     pos += len(bl) + 1
                 if len(hits) != 1:
+                    if opt:
+                        gen.skipped_hints.append(dict(block=blk.label, anchor=arg, matches=len(hits), tpl_line=ln))
+                        continue
                     raise ExtractError('lost anchor: %s /%s/ matches %d lines in %s' % (k, arg, len(hits), blk.label))
                 if k == 'before':
                     inserts.append((hits[0], 0, t + '\n', ln, None))
@@ -592,11 +691,14 @@ def expand(template_path):
                 break
         body = text[ob:cb + 1]
         sigtxt = text[mm.start():ob]
+        prevtxt = text[max(0, k - 200):k]
+        imported = bool(re.search(r'// IMPORTED-(LEMMA|CONTRACT) (\S+)[^\n]*\n\s*$', prevtxt))
+        imp_name = re.search(r'// IMPORTED-(LEMMA|CONTRACT) (\S+)[^\n]*\n\s*$', prevtxt).group(2) if imported else None
         assumed = 'external_body' in attrs or re.search(r'(?<![A-Za-z0-9_])(admit|assume)\s*\(', mask(body)) is not None
         kind = 'spec' if is_spec else ('proof' if mm.group(1).startswith('proof') else 'exec')
         if 'uninterp' in pre:
             kind = 'spec'
-        tfuncs.append(dict(name=name, kind=kind, assumed=bool(assumed), gen_range=[line, line_of(m, cb)],
+        tfuncs.append(dict(name=name, kind=kind, assumed=bool(assumed), imported=imp_name, gen_range=[line, line_of(m, cb)],
                            has_requires=bool(re.search(r'(?<![A-Za-z0-9_])requires(?![A-Za-z0-9_])', mask(sigtxt))),
                            sig=' '.join(sigtxt.split())[:300], body_open_line=line_of(m, ob),
                            body_open_col=ob - line_start(m, ob)))
